@@ -113,7 +113,7 @@ def run(ctx):
                     chunks.append(L)
                     meta.append((enc, ty, order))
     res = streams.run_chunks(harness, chunks, "c04")
-    flat = [l for c in chunks for l in c]
+    flat = [c03.model_line(l) for c in chunks for l in c]
     mo, _, _ = streams.run_model(gdmodel, flat)
     k = 0
     q = []          # second model pass: decode what the library wrote
